@@ -338,6 +338,32 @@ func suiteC03(s *Suite, rng *Rng, tier string) {
 			if acc {
 				s.Violate("C03:different-secrets-one-label", "accepted after "+kind, L{kind})
 			}
+			// a member that discloses its whole secret key instead of proving knowledge of it has no secret-key response to
+			// compare: such a list has to be rejected (not accepted, and not answered with a panic)
+			if p0, ok := sess.List[0].(*gabi.ProofD); ok && secrets[assign[0]].BitLen() <= int(sess.Pks[0].Params.Lm) {
+				for _, pos := range []int{0, 1} {
+					pl2 := cloneList(sess.List)
+					q := cloneProofD(p0)
+					if q.ADisclosed == nil {
+						q.ADisclosed = map[int]*gbig.Int{}
+					}
+					q.ADisclosed[0] = cp(secrets[assign[0]])
+					delete(q.AResponses, 0)
+					pl2[0] = q
+					if pos == 1 {
+						pl2[0], pl2[1] = pl2[1], pl2[0]
+					}
+					pks2 := append([]*gabikeys.PublicKey{}, sess.Pks...)
+					if pos == 1 {
+						pks2[0], pks2[1] = pks2[1], pks2[0]
+					}
+					kind2 := fmt.Sprintf("member-discloses-whole-secret:pos%d", pos)
+					pan, acc2, _ := verifyCase(s, kind2, false, pks2, sess.Context, sess.Nonce, false, nil, pl2)
+					if acc2 || pan {
+						s.Violate("C03:different-secrets-one-label", fmt.Sprintf("list with a member that discloses its secret key instead of a response: accepted=%v panicked=%v", acc2, pan), L{kind2})
+					}
+				}
+			}
 		}
 	}
 	// ---- two holders pool their secrets: CL signatures are malleable in the exponent of a base (A, e, v over s becomes
